@@ -29,6 +29,10 @@ fn main() {
             "--replay" => replay = Some(v),
             "--scale" => scale = v.parse().unwrap_or(1.0),
             "--only-class" => only_class = v.parse().ok(),
+            "--verbose" => {
+                mon::set_quiet(false);
+                i -= 1;
+            }
             "--cpu-limit" => cpu_limit = v.parse().unwrap_or(20),
             "--wall-limit" => wall_limit = v.parse().unwrap_or(10800),
             x => {
